@@ -574,7 +574,11 @@ func (e *Enc) mapComps(m *types.Map) (d, v, l *Comp) {
 }
 
 func (e *Enc) mapLinkFacts(dsym, lsym, ks string) []string {
+	wit := "map_wit_" + sanitize(ks)
+	e.hdrOnce(wit, fmt.Sprintf("(declare-fun %s ((Array %s Bool)) %s)", wit, ks, ks))
 	return []string{
+		// a non-empty map has a witness key
+		fmt.Sprintf("(forall ((m Ref)) (! (=> (> (select %s m) 0) (select (select %s m) (%s (select %s m)))) :pattern ((select %s m))))", lsym, dsym, wit, dsym, lsym),
 		fmt.Sprintf("(forall ((m Ref) (k %s)) (! (=> (select (select %s m) k) (>= (select %s m) 1)) :pattern ((select (select %s m) k))))", ks, dsym, lsym, dsym),
 		fmt.Sprintf("(forall ((k %s)) (! (not (select (select %s nil) k)) :pattern ((select (select %s nil) k))))", ks, dsym, dsym),
 	}
